@@ -3,20 +3,20 @@ _f = ['cmb_process_hold', 'cmb_process_timer_add/_cancel/_timers_clear', 'cmb_pr
       'cmb_process_stop', 'cmb_process_exit', 'cmb_process_priority_set', 'cmi_process_cancel_awaiteds', 'cmi_process_drop_resources', 'wake_process_waiters',
       'wakeup_event_time/_process/_interrupt, resume_event', 'cmb_resourceguard_wait/_signal/_cancel/_remove/_register', 'wakeup_event_resource',
       'cmb_event_* (real, below the process layer)', 'wakeup_event_event, wake_event_waiters, cmi_event_add_waiter/_remove_waiter']
-_stubs = ['coroutine layer replaced by the waker model (harness/procs.c): yield = the real dispatcher loop over the real event queue until the caller is resumed; resume = recorded',
+_stubs = ['coroutine layer replaced by the waker model (harness/procs.c): yield = environment step through the real API, then the first pending event addressed to the caller (in the real event order) is taken from the real queue and its REAL action (wakeup_event_time/_process/_event/_resource/_interrupt, resume_event) is run; resume = recorded',
           'cmi_hashheap.c replaced by its contract stub (hhstub.h, contract from C02)', 'cmi_mempool_alloc/_free redirected to plain allocation (contract of C20: distinct live objects; freed tags must not be used)',
           'demand functions / holdable drop+reprio methods: recording stubs']
 _assumes = ['user-chosen signal values (timers, interrupts, resume) are not 0 = SUCCESS', 'at most 2 foreign causes, 2 waiters, 2 queued processes per scenario (bounded-shape)']
-def _p(gid, prop, entry, define, bound, also=(), timeout=1500, tier='quick', unwind=6):
-    return Group(id=gid, prop=prop, harness='procs.c', entry=entry, defines=[define], level='bounded-shape', bound=bound, backend='sat', timeout=timeout, tier=tier,
-                 unwind=unwind, unwindset='wake_event_waiters.0:3,wake_process_waiters.0:3', functions=_f, stubs=_stubs, assumes=_assumes, also=list(also) + ['C10'],
+def _p(gid, prop, entry, define, bound, also=(), timeout=900, tier='quick', unwind=6, canaries=1):
+    return Group(id=gid, prop=prop, harness='procs.c', entry=entry, defines=[define], level='bounded-shape', bound=bound, backend='sat', timeout=timeout, tier=tier, canaries=canaries,
+                 unwind=unwind, functions=_f, stubs=_stubs, assumes=_assumes, also=list(also) + ['C10'],
                  replace_calls=[('cmi_mempool_alloc', 'cmv_pool_alloc'), ('cmi_mempool_free', 'cmv_pool_free')])
 GROUPS = [
-    _p('C04.O1.hold', 'C04', 'h_hold', 'H_HOLD', 'hold with <= 2 arbitrary foreign causes (user timer / interrupt / resume) at arbitrary times and priorities'),
+    _p('C04.O1.hold', 'C04', 'h_hold', 'H_HOLD', 'hold with <= 2 arbitrary foreign causes (user timer / interrupt / resume) at arbitrary times and priorities', canaries=2),
     _p('C04.O2.timers', 'C04', 'h_timers', 'H_TIMERS', 'two armed timers + one unrelated registration; cancel / clear'),
-    _p('C04.O3.wait_process', 'C04', 'h_waitproc', 'H_WAITPROC', 'one foreign cause; the awaited process running / stopped later / already finished; second waiter', also=['C09']),
-    _p('C04.O3.wait_event', 'C04', 'h_waitevent', 'H_WAITEVENT', 'one foreign cause; the awaited event executes, or is cancelled first'),
-    _p('C04.O3.guard_wait', 'C04', 'h_guardwait', 'H_GUARDWAIT', 'one foreign cause; another waiter; the guard signalled at an arbitrary time with demand true/false', also=['C08']),
+    _p('C04.O3.wait_process', 'C04', 'h_waitproc', 'H_WAITPROC', 'one foreign cause; the awaited process running / stopped later / already finished; second waiter', also=['C09'], canaries=2),
+    _p('C04.O3.wait_event', 'C04', 'h_waitevent', 'H_WAITEVENT', 'one foreign cause; the awaited event executes, or is cancelled first', canaries=2),
+    _p('C04.O3.guard_wait', 'C04', 'h_guardwait', 'H_GUARDWAIT', 'one foreign cause; another waiter; the guard signalled at an arbitrary time with demand true/false', also=['C08'], canaries=2),
     _p('C06.O2.guard_signal', 'C06', 'h_guardsignal', 'H_GUARDSIGNAL', '<= 2 waiters with arbitrary priorities and entry times, one observer guard with one waiter; signal / cancel / remove', also=['C13']),
     _p('C06.O3.priority_set', 'C06', 'h_prioset', 'H_PRIOSET', 'a process queued at a guard with a competitor, one armed timer, one held object'),
     _p('C09.O2.end', 'C09', 'h_end', 'H_END', 'exit / stop by another / stop self; holding <= 1 object, <= 1 timer, queued at <= 1 guard, <= 1 pending wake-up, <= 2 waiters'),
